@@ -106,6 +106,8 @@ type FnCtx struct {
 	frameWhole  []string // element heaps the function may write anywhere (assigns heap(T))
 	dispatchDepth int
 	knownInts   map[string]int64
+	capturedBinding map[string]Val // captured variables of the literal being called by contract
+	globalCache map[*types.Var]Val // one symbolic value per package-level variable (read-only within a call)
 	openBound   []string // bound variables of the quantifiers currently being evaluated
 	boxed       map[types.Object]bool // locals whose address is taken live in the pointer heap
 }
@@ -120,7 +122,74 @@ type KnownFinding struct {
 	guardTerm  string
 }
 
-func (c *FnCtx) emit(cmd string) { c.cmds = append(c.cmds, cmd) }
+func (c *FnCtx) emit(cmd string) {
+	if strings.Contains(cmd, ":pattern ((H_") {
+		cmd = c.stripMacroPatterns(cmd)
+	}
+	c.cmds = append(c.cmds, cmd)
+}
+
+// stripMacroPatterns removes ":pattern" annotations whose head symbol is a macro-defined heap
+// version (a define-fun): after macro expansion such a pattern is not a valid trigger.
+func (c *FnCtx) stripMacroPatterns(cmd string) string {
+	for {
+		changed := false
+		idx := 0
+		for {
+			i := strings.Index(cmd[idx:], ":pattern ((")
+			if i < 0 {
+				break
+			}
+			i += idx
+			idx = i + 1
+			j := i + len(":pattern ((")
+			k := j
+			for k < len(cmd) && cmd[k] != ' ' && cmd[k] != ')' {
+				k++
+			}
+			if !c.isMacro[cmd[j:k]] {
+				continue
+			}
+			// end of the pattern clause: the ')' closing ":pattern (" ... ")"
+			d := 0
+			e := i + len(":pattern ")
+			for ; e < len(cmd); e++ {
+				if cmd[e] == '(' {
+					d++
+				} else if cmd[e] == ')' {
+					d--
+					if d == 0 {
+						e++
+						break
+					}
+				}
+			}
+			// the enclosing "(! body :pattern (...))": find its opening
+			d = 0
+			b := i - 1
+			for ; b >= 0; b-- {
+				if cmd[b] == ')' {
+					d++
+				} else if cmd[b] == '(' {
+					if d == 0 {
+						break
+					}
+					d--
+				}
+			}
+			if b < 0 || !strings.HasPrefix(cmd[b:], "(! ") || e >= len(cmd) || cmd[e] != ')' {
+				break
+			}
+			body := strings.TrimSpace(cmd[b+3 : i])
+			cmd = cmd[:b] + body + cmd[e+1:]
+			changed = true
+			break
+		}
+		if !changed {
+			return cmd
+		}
+	}
+}
 
 func (c *FnCtx) declare(name string, argSorts []string, ret string) {
 	if c.declared[name] {
@@ -350,6 +419,7 @@ func (c *FnCtx) writeElem(st *State, elem types.Type, ref, idx string, v Val) {
 		old := c.heapSym(st, key, sort, 2)
 		nw := c.newHeapVersion(key)
 		c.declared[nw] = true
+		c.isMacro[nw] = true
 		c.emit(fmt.Sprintf("(define-fun %s ((r Int) (i Int)) %s (ite (and (= r %s) (= i %s)) %s (%s r i)))", nw, sort, ref, idx, fl[i].S, old))
 		st.heaps[key] = nw
 		i++
@@ -365,6 +435,7 @@ func (c *FnCtx) copyElems(st *State, elem types.Type, dref, doff, sref, soff, n 
 		old := c.heapSym(st, key, sort, 2)
 		nw := c.newHeapVersion(key)
 		c.declared[nw] = true
+		c.isMacro[nw] = true
 		c.emit(fmt.Sprintf("(define-fun %s ((r Int) (i Int)) %s (ite (and (= r %s) (<= %s i) (< i (+ %s %s))) (%s %s (+ %s (- i %s))) (%s r i)))",
 			nw, sort, dref, doff, doff, n, old, sref, soff, doff, old))
 		st.heaps[key] = nw
@@ -378,6 +449,7 @@ func (c *FnCtx) copyFromStr(st *State, dref, doff, str, soff, n string) {
 	old := c.heapSym(st, key, "Int", 2)
 	nw := c.newHeapVersion(key)
 	c.declared[nw] = true
+		c.isMacro[nw] = true
 	c.emit(fmt.Sprintf("(define-fun %s ((r Int) (i Int)) Int (ite (and (= r %s) (<= %s i) (< i (+ %s %s))) (sat %s (+ %s (- i %s))) (%s r i)))",
 		nw, dref, doff, doff, n, str, soff, doff, old))
 	st.heaps[key] = nw
@@ -488,6 +560,7 @@ func (c *FnCtx) writePtr(st *State, elem types.Type, addr string, v Val) {
 		old := c.heapSym(st, key, sort, 1)
 		nw := c.newHeapVersion(key)
 		c.declared[nw] = true
+		c.isMacro[nw] = true
 		c.emit(fmt.Sprintf("(define-fun %s ((r Int)) %s (ite (= r %s) %s (%s r)))", nw, sort, addr, fl[i].S, old))
 		st.heaps[key] = nw
 		i++
@@ -518,6 +591,7 @@ func (c *FnCtx) makeSlice(st *State, elem types.Type, t types.Type, ln, cp strin
 			old := c.heapSym(st, key, sort, 2)
 			nw := c.newHeapVersion(key)
 			c.declared[nw] = true
+		c.isMacro[nw] = true
 			c.emit(fmt.Sprintf("(define-fun %s ((r Int) (i Int)) %s (ite (= r %s) %s (%s r i)))", nw, sort, r, z[i].S, old))
 			st.heaps[key] = nw
 			i++
@@ -631,6 +705,7 @@ func (c *FnCtx) merge(states []*State) *State {
 		}
 		nw := c.newHeapVersion(k)
 		c.declared[nw] = true
+		c.isMacro[nw] = true
 		if nargs == 2 {
 			t := sx(syms[len(live)-1], "r", "i")
 			for i := len(live) - 2; i >= 0; i-- {
